@@ -53,6 +53,9 @@ def native(ty: Ty, rng, depth=0, hashable=False):
         return re.compile(ch((b'ab+', b'', b'x.y'))) if ty.x.get('of') == 'bytes' else re.compile(ch(('abc', 'a+b*', '', r'\d{2,3}')))
     if k == 'any':
         return ch((5, 'x', None, 2.5, True, b'b')) if hashable else ch((5, 'x', None, 2.5, True, [1, 'a'], {'k': [1]}, (1, 2)))
+    if k == 'cc':
+        from .tyast import CountryCode
+        return CountryCode(ch(('gb', 'us', 'cn')))
     if k == 'sub':
         cls = py_class(ty)
         return cls({'int': 5, 'float': 2.5, 'str': 'abc'}[ty.x['base']])
@@ -136,10 +139,14 @@ def native(ty: Ty, rng, depth=0, hashable=False):
         import numpy
         dt = ty.x.get('dtype')
         shape = ch(((), (0,), (2,), (2, 2), (1, 3)))
+        if dt != 'float' and 0 in shape:
+            shape = (2,)   # an empty array parses back as float64: numpy's choice, not a conversion result
         if dt == 'int':
-            if 0 in shape:
-                shape = (2,)   # an empty array parses back as float64: numpy's choice, not a conversion result
             return numpy.array(numpy.arange(int(numpy.prod(shape))).reshape(shape), dtype=numpy.int64)
+        if dt == 'bool':
+            return numpy.array(numpy.arange(int(numpy.prod(shape))).reshape(shape) % 2 == 0, dtype=numpy.bool_)
+        if dt == 'complex':
+            return numpy.array(numpy.linspace(-1.5, 2.5, int(numpy.prod(shape))).reshape(shape) * (1 + 1j), dtype=numpy.complex128)
         return numpy.array(numpy.linspace(-1.5, 2.5, int(numpy.prod(shape))).reshape(shape), dtype=numpy.float64)
     if k == 'vol':
         from pane.types import ValueOrList
